@@ -141,6 +141,25 @@ pub fn run(op: &str, v: &Value) -> Value {
                 None => json!({"affix": null, "independent": null, "text": ""}),
             }
         }
+        // the real ConversionFrequency under controlled time stamps
+        "kkc_freq" => {
+            let init: Vec<(Context, String, u64, i64)> = v["init"].as_array().map(|a| a.iter().map(|e| {
+                (context_of(&e[0]), e[1].as_str().unwrap().to_string(), e[2].as_u64().unwrap(), e[3].as_i64().unwrap())
+            }).collect()).unwrap_or_default();
+            let mut f = ConversionFrequency::verif_from_entries(&init);
+            for o in v["ops"].as_array().unwrap() {
+                match o[0].as_str().unwrap() {
+                    "update" => f.update_word(o[2].as_str().unwrap(), &context_of(&o[1]), o[3].as_i64().unwrap()),
+                    "expire" => f.expire_frequencies(o[1].as_i64().unwrap(), o[2].as_i64().unwrap()),
+                    _ => panic!("bad freq op"),
+                }
+            }
+            let mut out: Vec<(String, String, u64, i64)> = f.verif_entries().into_iter().map(|(c, w, n, l)| {
+                (serde_json::to_value(&c).unwrap()["kind"].as_str().unwrap().to_string(), w, n, l)
+            }).collect();
+            out.sort();
+            json!({"ok": out})
+        }
         _ => json!({"error": "unknown kkc op"}),
     }
 }
